@@ -2,7 +2,7 @@ SPECIFICATION Spec
 CONSTANT Leaky = TRUE
 CONSTANT MaxOrder = 1
 CONSTANT MaxCalls = 3
-INVARIANT DataUnchanged
+PROPERTY DataUnchanged
 INVARIANT Deterministic
 INVARIANT BestOfGrid
 CHECK_DEADLOCK FALSE
